@@ -20,7 +20,7 @@ func init() {
 	register(&Rule{ID: "R-LABELFRESH", Min: 5, Run: ruleLabelFresh,
 		Doc: "every function that edits a label set or matcher slice in place (shift-delete append(l[:i], l[i+1:]...), element store) is only called with a value that is fresh on all paths: a Copy(), a builder result, a make+copy, or the result of another in-place editor applied to a fresh value"})
 	register(&Rule{ID: "R-SORTEDNAMES", Min: 3, Run: ruleSortedNames,
-		Doc: "every label-name list handed to Labels.HashForLabels/HashWithoutLabels (which require sorted names) is a value that was sorted: the list stored in the operator's field is the very slice passed to slices.Sort"})
+		Doc: "every label-name list handed to Labels.HashForLabels/HashWithoutLabels/BytesWithLabels/BytesWithoutLabels (which require sorted names and silently skip names that are out of order) is a value that was sorted: the list stored in the operator's field is the very slice passed to slices.Sort"})
 
 	mutant(Mutant{Rule: "R-BOOLNAME", Name: "vector-bool-keeps-name", File: "execution/binary/vector.go",
 		Old: "keepName := o.opType.IsComparisonOperator() && !o.returnBool", New: "keepName := o.opType.IsComparisonOperator()", Expect: "signature"})
@@ -658,7 +658,10 @@ func ruleSortedNames(p *core.Program) []core.Obligation {
 				return
 			}
 			name := core.CalleeName(&call.Call)
-			if name != "("+pkgLabels+".Labels).HashForLabels" && name != "("+pkgLabels+".Labels).HashWithoutLabels" {
+			switch name {
+			case "(" + pkgLabels + ".Labels).HashForLabels", "(" + pkgLabels + ".Labels).HashWithoutLabels",
+				"(" + pkgLabels + ".Labels).BytesWithLabels", "(" + pkgLabels + ".Labels).BytesWithoutLabels":
+			default:
 				return
 			}
 			k++
